@@ -383,6 +383,8 @@ static void do_sigalg(char **w) {
  * The HTTP transport is replaced at link time (like getentropy/time): http_get() below serves the scripted CRL.
  * crlcheck <serialhex> <entries> <issuer ca|other> <signkey> <fresh|expired|future> <flip permille|-1> <dp 1|0> <fetch ok|fail> */
 static const uint8_t *served; static size_t served_len; static int serve_fail; static int serve_calls;
+#ifndef C15_NET
+static const char *crl_uri(void) { return "http://crl.test/ca.crl"; }
 int http_get(const char *uri, uint8_t *buf, size_t *contentlen, size_t buflen) {
 	(void)uri; serve_calls++;
 	if (serve_fail || !served) return -1;
@@ -391,6 +393,9 @@ int http_get(const char *uri, uint8_t *buf, size_t *contentlen, size_t buflen) {
 	memcpy(buf, served, served_len);
 	return 1;
 }
+#else
+static const char *crl_uri(void);       /* http://127.0.0.1:<port>/ca.crl, served by the loopback thread of harness_net.c */
+#endif
 static void do_crlcheck(char **w) {
 	buf_t serial = hex2buf(w[1]); int ok; blob_t rev = build_revoked(w[2], &ok);
 	int other_issuer = !strcmp(w[3], "other"), sk = atoi(w[4]); const char *when = w[5]; long flip = strtol(w[6], NULL, 10); int dp = atoi(w[7]);
@@ -405,7 +410,7 @@ static void do_crlcheck(char **w) {
 		|| x509_name_set(othername, &othernamelen, sizeof othername, "CN", NULL, NULL, "VERIF", NULL, "CB") != 1
 		|| x509_name_set(eename, &eenamelen, sizeof eename, "CN", NULL, NULL, "VERIF", NULL, "EE") != 1) { printf("ERR args"); goto end; }
 	ca = ca_cert_for(caname, canamelen, 1);
-	if (dp && x509_exts_add_crl_distribution_points(exts, &extslen, sizeof exts, -1, "http://crl.test/ca.crl", 22, NULL, 0) != 1) { printf("ERR exts"); goto end; }
+	if (dp && x509_exts_add_crl_distribution_points(exts, &extslen, sizeof exts, -1, crl_uri(), strlen(crl_uri()), NULL, 0) != 1) { printf("ERR exts"); goto end; }
 	if (x509_exts_add_key_usage(exts, &extslen, sizeof exts, X509_critical, X509_KU_DIGITAL_SIGNATURE) != 1) { printf("ERR exts"); goto end; }
 	if (!ca.p || x509_cert_sign_to_der(X509_version_v3, serial.p, serial.n, OID_sm2sign_with_sm3, caname, canamelen, 1699990000, 1700090000, eename, eenamelen,
 		&keys[2], NULL, 0, NULL, 0, exts, extslen, &keys[1], SM2_DEFAULT_ID, SM2_DEFAULT_ID_LENGTH, NULL, &certlen) != 1) { printf("ERR cert"); goto end; }
@@ -508,6 +513,7 @@ static void handle(size_t nw, char **w) {
 	else printf("ERR bad-op");
 }
 
+#ifndef C15_NET
 int main(void) {
 	int i;
 	quiet_stderr();
@@ -516,3 +522,4 @@ int main(void) {
 	main_loop(handle);
 	return 0;
 }
+#endif
